@@ -292,6 +292,53 @@ class _SymSeq:
             return False
         return _eq_items(self.items[e - len(p):e], p)
 
+    def isascii(self) -> Any:
+        conds = []
+        for c in self.items:
+            if isinstance(c, int):
+                if c >= 0x80:
+                    return False
+            else:
+                conds.append(c.t < 0x80)
+        if not conds:
+            return True
+        return bool(SymBool(z3.And(*conds)))
+
+    def _all_in(self, name: str, ranges: list) -> Any:
+        """str/bytes predicate that is true iff the value is non-empty and every item lies in one of `ranges`
+        (exact for bytes; for str only while every item is ASCII)"""
+        if not self.items:
+            return False
+        conds = []
+        for c in self.items:
+            if isinstance(c, int):
+                if not any(lo <= c <= hi for lo, hi in ranges):
+                    if c >= 0x80 and self.kind == 'str':
+                        return getattr(self.lower_concrete(), name)() if self.is_concrete() else self._nonascii(name)
+                    return False
+            else:
+                if self.kind == 'str' and bool(c >= 0x80):
+                    return self._nonascii(name)
+                conds.append(z3.Or(*[z3.And(c.t >= lo, c.t <= hi) for lo, hi in ranges]))
+        if not conds:
+            return True
+        return bool(SymBool(z3.And(*conds)))
+
+    def _nonascii(self, name: str) -> Any:
+        raise Unsupported('%s.%s on symbolic non-ASCII text' % (type(self).__name__, name))
+
+    def isdigit(self) -> Any:
+        return self._all_in('isdigit', [(48, 57)])
+
+    def isalpha(self) -> Any:
+        return self._all_in('isalpha', [(65, 90), (97, 122)])
+
+    def isalnum(self) -> Any:
+        return self._all_in('isalnum', [(48, 57), (65, 90), (97, 122)])
+
+    def isspace(self) -> Any:
+        return self._all_in('isspace', [(9, 13), (32, 32)] + ([(28, 31)] if self.kind == 'str' else []))
+
     def removeprefix(self, p: Any) -> Any:
         n = len(self._sub_arg(p))
         if n and self.startswith(p):
